@@ -13,7 +13,18 @@ type CheckFunc func(p *load.Program, r *kit.Report)
 
 var registry = map[string]CheckFunc{}
 
-func register(id string, f CheckFunc) { registry[id] = f }
+// register installs a property's check; a check whose property owns fallible call sites (errdisp.go) is
+// followed by the baseline rule over them.
+func register(id string, f CheckFunc) {
+	registry[id] = func(p *load.Program, r *kit.Report) {
+		f(p, r)
+		if !ownsErrDisposition(id) {
+			return
+		}
+		r.Rule("ERR-DISPOSITION", "every call whose error the reference tree returns from all of its call sites in a function (errdisp.json, frozen with anchors.json) still has its error returned there — on the current tree after renames were followed and new helpers expanded; sites = fallible calls in the static call trees of this property's entry points", 1)
+		checkErrDisposition(p, r, "ERR-DISPOSITION")
+	}
+}
 
 func Get(id string) CheckFunc { return registry[id] }
 
